@@ -43,6 +43,11 @@ var (
 	errDeleteTimeout                    = errors.New("delete timeout")
 )
 
+// errNoHeaderToDelete reports that there is no header at the height to delete.
+// It is distinct from datastore.ErrNotFound so that an OnDelete handler failing
+// with that error is not mistaken for a missing header.
+var errNoHeaderToDelete = errors.New("header/store: no header to delete")
+
 // deleteSingle deletes a single header from the store,
 // its caches and indexies, notifying any registered onDelete handlers.
 func (s *Store[H]) deleteSingle(
@@ -56,6 +61,9 @@ func (s *Store[H]) deleteSingle(
 	}
 
 	hash, err := s.heightIndex.HashByHeight(ctx, height, false)
+	if errors.Is(err, datastore.ErrNotFound) {
+		return fmt.Errorf("hash by height %d: %w", height, errors.Join(errNoHeaderToDelete, err))
+	}
 	if err != nil {
 		return fmt.Errorf("hash by height %d: %w", height, err)
 	}
@@ -102,7 +110,7 @@ func (s *Store[H]) deleteSequential(
 
 	for height := from; height < to; height++ {
 		err := s.deleteSingle(ctx, height, onDelete)
-		if errors.Is(err, datastore.ErrNotFound) {
+		if errors.Is(err, errNoHeaderToDelete) {
 			missing++
 			log.Debugw("attempt to delete header that's not found", "height", height)
 		} else if err != nil {
@@ -167,7 +175,7 @@ func (s *Store[H]) deleteParallel(ctx context.Context, from, to uint64) (uint64,
 		for height := range jobCh {
 			last.height = height
 			last.err = s.deleteSingle(workerCtx, height, onDelete)
-			if errors.Is(last.err, datastore.ErrNotFound) {
+			if errors.Is(last.err, errNoHeaderToDelete) {
 				// an already missing header is not a failure of this worker
 				last.err = nil
 				last.missing++
